@@ -42,6 +42,9 @@ def _class(av):
                 alts.append(SPACE)
             elif c == 'CATEGORY_WORD':
                 alts.append(WORD)
+            elif c in ('CATEGORY_NOT_SPACE', 'CATEGORY_NOT_DIGIT', 'CATEGORY_NOT_WORD'):
+                base = {'CATEGORY_NOT_SPACE': SPACE, 'CATEGORY_NOT_DIGIT': DIGIT, 'CATEGORY_NOT_WORD': WORD}[c]
+                alts.append(z3.Intersect(z3.AllChar(z3.ReSort(z3.StringSort())), z3.Complement(base)))
             else:
                 raise Untranslatable(c)
         else:
@@ -56,10 +59,13 @@ def _item(op, av):
     o = str(op)
     if o == 'LITERAL':
         return z3.Re(chr(av))
+    if o == 'NOT_LITERAL':
+        return z3.Intersect(z3.AllChar(z3.ReSort(z3.StringSort())), z3.Complement(z3.Re(chr(av))))
     if o == 'IN':
         return _class(av)
     if o == 'ANY':
-        return z3.AllChar(z3.ReSort(z3.StringSort()))
+        # '.' without DOTALL: any character but a newline
+        return z3.Intersect(z3.AllChar(z3.ReSort(z3.StringSort())), z3.Complement(z3.Re('\n')))
     if o in ('MAX_REPEAT', 'MIN_REPEAT'):
         lo, hi, sub = av
         r = _items(sub)
